@@ -4,7 +4,7 @@ from engine.core import RuleResult, suffix
 
 EXPLANATION = (
     "Static table agreement (K6) and ordering (K4) only; XOR-address algebra, HMAC/CRC values, long-term keys, "
-    "ChannelData framing values, candidate-line round trips and priority formulas are value-level and NOT decided. "
+    "ChannelData framing values and candidate-line round trips are value-level and NOT decided; priority formulas are checked for shape and constants only (R16.6). "
     "R16.1 method and class bit tables of encode_stun_message and decode_stun_message agree with each other and with "
     "RFC 5389/5766. R16.2 attribute type codes written by append_attribute (per StunAttribute variant) equal the IANA "
     "registry, and every code the decoder dispatches on is a registry code for the field it fills. R16.3 magic cookie "
@@ -319,5 +319,108 @@ def _on_auth_state(b, pl):
     return "TurnAuthState" in ty
 
 
+def _var_table(b, var_name, discr_field_pred):
+    """{variant: constant} for `let v = match <enum> { V1 => c1, .. }`: the constants assigned to user local
+    var_name in the arms of the switch whose discriminant satisfies discr_field_pred"""
+    ls = [i for i, l in enumerate(b.locals) if l.get("n") == var_name]
+    if len(ls) != 1:
+        return None
+    l = ls[0]
+    out = {}
+    for sb in range(len(b.blocks)):
+        if sb in b.cleanup or b.blocks[sb]["t"]["k"] != "switch":
+            continue
+        term, outs = b.switch_info(sb)
+        if term[0] != "discr" or not discr_field_pred(term[1]):
+            continue
+        _, regions = core.arm_regions(b, sb)
+        for meaning, blocks in regions.items():
+            for bi in blocks:
+                for st in b.blocks[bi]["s"]:
+                    if st["k"] == "as" and st["p"]["l"] == l and "p" not in st["p"]:
+                        v = mir.int_value(b.term_rvalue(st["rv"]))
+                        if isinstance(v, int) and isinstance(meaning, str):
+                            out[meaning] = v
+    return out
+
+
+def r16_6(ctx):
+    """RFC 8445 5.1.2.1: priority = 2^24 * type preference + 2^8 * local preference + (256 - component), with the
+    recommended type preferences host 126 > prflx 110 > srflx 100 > relay 0; RFC 6544 4.1 local preferences for
+    TCP; RFC 8445 6.1.2.3: pair priority = 2^32*MIN(G,D) + 2*MAX(G,D) + (G>D ? 1 : 0), G the controlling agent's
+    candidate priority. Formula *shape* and constant tables; not the arithmetic result."""
+    r = RuleResult("R16.6", "K6", "candidate and pair priority formulas have the RFC 8445 / 6544 shape and constants")
+    P = "transports::ice::IceCandidate::"
+
+    def cand_shape(t):
+        # ((type_pref << 24) | (local_pref << 8)) | (256 - component)
+        try:
+            ok = t[0] == "bin" and t[1] == "BitOr" and t[2][0] == "bin" and t[2][1] == "BitOr"
+            a, c, d = t[2][2], t[2][3], t[3]
+            ok = ok and a[0] == "bin" and a[1] == "Shl" and a[2][:2] == ("var", "type_pref") and mir.int_value(a[3]) == 24
+            ok = ok and c[0] == "bin" and c[1] == "Shl" and mir.int_value(c[3]) == 8 and \
+                (mir.int_value(c[2]) == 65535 or c[2][:2] == ("var", "local_pref"))
+            ok = ok and d[0] == "bin" and d[1] == "Sub" and mir.int_value(d[2]) == 256 and mir.has(d[3], lambda x: x == ("arg", "component"))
+            return ok
+        except (IndexError, TypeError):
+            return False
+    for fn in (P + "priority_for", P + "priority_for_tcp"):
+        b = ctx.body(fn)
+        r.scope.append(fn)
+        if cand_shape(b.term_local(0)):
+            r.ok({"function": fn, "shape": "(type_pref << 24) | (local_pref << 8) | (256 - component)"})
+        else:
+            r.violate(fn, "formula", b.where(0), "candidate priority is %s, not (type_pref << 24) | (local_pref << 8) | (256 - component)" % mir.show(b.term_local(0), 120))
+        tp = _var_table(b, "type_pref", lambda x: x == ("arg", "typ"))
+        want = {"Host": 126, "PeerReflexive": 110, "ServerReflexive": 100, "Relay": 0}
+        if tp == want:
+            r.ok({"function": fn, "type preferences": want})
+        else:
+            r.violate(fn, "table:type_pref", b.where(0), "type preferences are %s, RFC 8445 recommends %s (host > prflx > srflx > relay)" % (tp, want))
+    b = ctx.body(P + "priority_for_tcp")
+    lp = _var_table(b, "local_pref", lambda x: x == ("arg", "tcp_type"))
+    if lp == {"Passive": 65535, "Active": 65534, "So": 65533}:
+        r.ok({"tcp local preferences": lp})
+    else:
+        r.violate(b.name, "table:local_pref", b.where(0), "TCP local preferences are %s" % lp)
+    pb = ctx.body("transports::ice::IceCandidatePair::priority")
+    r.scope.append(pb.name)
+    t = pb.term_local(0)
+
+    def has_bin(op, pred):
+        return mir.has(t, lambda x: x[0] == "bin" and x[1] == op and pred(x))
+    shape = has_bin("Mul", lambda x: x[2][0] == "bin" and x[2][1] == "Shl" and mir.int_value(x[2][2]) == 1 and mir.int_value(x[2][3]) == 32
+                    and x[3][0] == "call" and x[3][1].endswith("cmp::min")) and \
+        has_bin("Mul", lambda x: mir.int_value(x[2]) == 2 and x[3][0] == "call" and x[3][1].endswith("cmp::max")) and \
+        mir.has(t, lambda x: x[0] == "phi" and sorted(mir.int_value(y) for y in x[1] if isinstance(mir.int_value(y), int)) == [0, 1])
+    if shape:
+        r.ok({"pair priority": "2^32*min(G,D) + 2*max(G,D) + (G>D ? 1 : 0)"})
+    else:
+        r.violate(pb.name, "formula", pb.where(0), "pair priority is %s" % mir.show(t, 160))
+    # G is the controlling side's candidate: on the Controlling arm the pair is (local, remote)
+    ok_role = False
+    for sb in range(len(pb.blocks)):
+        if pb.blocks[sb]["t"]["k"] != "switch":
+            continue
+        term, outs = pb.switch_info(sb)
+        if term[0] == "discr" and term[1] == ("arg", "role"):
+            _, regions = core.arm_regions(pb, sb)
+            for meaning, blocks in regions.items():
+                for bi in blocks:
+                    for st in pb.blocks[bi]["s"]:
+                        if st["k"] == "as" and st["rv"]["r"] == "agg" and st["rv"].get("ak") == "tuple":
+                            ops = [pb.term_operand(o) for o in st["rv"]["ops"]]
+                            first_local = mir.has_field(ops[0], "local")
+                            if meaning == "Controlling" and first_local:
+                                ok_role = True
+                            if meaning == "Controlling" and not first_local:
+                                ok_role = False
+    if ok_role:
+        r.ok({"pair priority": "G = local priority when controlling, remote priority when controlled"})
+    else:
+        r.violate(pb.name, "role", pb.where(0), "G is not the controlling agent's candidate priority")
+    return r
+
+
 def run(ctx):
-    return [r16_1(ctx), r16_2(ctx), r16_3(ctx), r16_4(ctx), r16_5(ctx)]
+    return [r16_1(ctx), r16_2(ctx), r16_3(ctx), r16_4(ctx), r16_5(ctx), r16_6(ctx)]
